@@ -258,6 +258,31 @@ def check_extension(case: t.Any, ctx: Ctx) -> None:
         ctx.fail('no-runtimeerror', f"{kind}:{type(full[1]).__name__}", f"{ident}: from_data gives {full[0]} {short(full[1], 120)} although try_convert {'accepts' if fast_ok else 'refuses'}")
 
 
+def check_equal_kinds(case: t.Any, ctx: Ctx) -> None:
+    """The lists of C02's `equal-across-kinds` suite (1 next to 1.0, True next to 1): whatever the verdict, both passes give it."""
+    import pane
+    from pane.convert import make_converter
+    from pane.errors import ParseInterrupt
+    from .c02 import SETDUP_TARGETS, SETDUP_VALUES
+    (tn, vi) = case
+    (T, v) = (SETDUP_TARGETS[tn], SETDUP_VALUES[vi])
+    data = {'k': v} if tn.startswith('Dict') else v
+    conv = make_converter(T)
+    ctx.label(f"target:{tn}")
+    ctx.nontrivial(True)
+    ctx.evaluated(3)
+    fast = outcome(lambda: conv.try_convert(data))
+    diag = outcome(lambda: conv.collect_errors(data))
+    full = outcome(lambda: pane.from_data(data, T))
+    fast_ok = fast[0] == 'ok'
+    if not fast_ok and not isinstance(fast[1], ParseInterrupt):
+        ctx.fail('two-pass-agree', f"equal-across-kinds:fast-pass-raises:{type(fast[1]).__name__}", f"{tn} given {data!r}: try_convert raised {type(fast[1]).__name__}")
+    elif diag[0] != 'ok' or (diag[1] is None) != fast_ok:
+        ctx.fail('two-pass-agree', 'equal-across-kinds', f"{tn} given {data!r}: try_convert {'accepts' if fast_ok else 'refuses'}, collect_errors gives {short(diag[1], 100)}")
+    elif full[0] not in ('ok', 'ce'):
+        ctx.fail('no-runtimeerror', f"equal-across-kinds:{type(full[1]).__name__}", f"{tn} given {data!r}: from_data raised {type(full[1]).__name__}: {str(full[1])[:150]}")
+
+
 def suites(tier: str) -> t.List[Suite]:
     big = tier == 'thorough'
     leaves = 8 if big else 4
@@ -266,6 +291,8 @@ def suites(tier: str) -> t.List[Suite]:
         Suite('twopass', check, strategy=lambda: gen.conv_cases(gen.all_type_specs(leaves)), examples=8000 if big else 600,
               budget_s=480 if big else 40, render=gen.render_case),
         # conditions see the *converted* value in both passes: the condition grammar of C13 (thresholds, duplicates collapsing in sets, ...)
+        Suite('equal-across-kinds', check_equal_kinds, cases=lambda sh, n: __import__('pv.props.c02', fromlist=['x']).setdup_cases(sh, n), exhaustive=True, budget_s=30,
+              render=lambda c: {'target': c[0], 'value index': c[1]}),
         Suite('extension-points', check_extension, cases=ext_cases, exhaustive=True, budget_s=30, render=lambda c: {'kind': c[0], 'value': c[1], 'where': c[2]}),
         Suite('conditions', check, strategy=_condition_cases, examples=3000 if big else 300, budget_s=120 if big else 20, render=gen.render_case),
         *([Suite('atheris', check_atheris, cases=atheris_cases, budget_s=ATHERIS_BUDGET + 200)] if big else []),
